@@ -55,8 +55,9 @@ TStep ==
          \/ /\ e[1] = "stop"  /\ \E y \in UserStop(x)  : Produces(y, l + 1, row.t) /\ r' = y /\ l' = l + 1 + Len(y.ev)
          \/ /\ e[1] = "mdns"  /\ \E y \in Mdns(x, e[2]) : Produces(y, l + 1, row.t) /\ r' = y /\ l' = l + 1 + Len(y.ev)
          \/ /\ e[1] = "graceful" /\ \E y \in Graceful(x) : r' = y /\ l' = l + 1
+         \/ /\ e[1] = "verdict_bad" /\ \E y \in VerdictBad(x) : r' = y /\ l' = l + 1
          \/ /\ e[1] = "idle"  /\ SnapOK(x, row.snap) /\ r' = Begin(x) /\ l' = l + 1
-         \/ /\ e[1] \notin {"start", "stop", "mdns", "idle", "graceful"}
+         \/ /\ e[1] \notin {"start", "stop", "mdns", "idle", "graceful", "verdict_bad"}
             /\ \E y \in Eventful(x) : y.ev # <<>> /\ Produces(y, l, row.t) /\ r' = y /\ l' = l + Len(y.ev)
   /\ UNCHANGED tid
 
